@@ -335,12 +335,14 @@ QueueInvariants == AtMostOnce /\ ExactlyOnce /\ LaneBound /\ BgBound /\ Completi
                    /\ StatusTable /\ ChildrenReaped
 
 ---------------------------------------------------------------------------
-(* closed system for model checking: a sequential client that adds cfg.client in order and then destroys the     *)
+(* closed system for model checking: a sequential client that adds cfg.client in order and then (with cfg.waitdone: *)
+(* once every job has finished) destroys the                                                                    *)
 (* queue, a canceller thread (cfg.auxcancel), jobs following their scripts, children following their definitions *)
 CONSTANTS MCConfig, NotifyOnAdd, DrainPriority
 HasHang == \E h \in Procs : cfg.procs[h].fate = "hang"    \* such a queue is destroyed only after cancellation
 ClientNext == LET rest == SelectSeq(cfg.client, LAMBDA j : jst[j] = "new") IN IF rest = <<>> THEN "" ELSE Head(rest)
 ClientDone == ClientNext = "" /\ cadd = {}
+AllJobsFinished == \A j \in Jobs : jst[j] = "finished"     \* cfg.waitdone: the client waits for its jobs, as the build engine does
 Finished == dtor = "returned" /\ \A h \in Procs : pst[h].st \in {"none", "done"}
 
 MCNextNoCancel ==
@@ -350,7 +352,7 @@ MCNextNoCancel ==
   \/ \E l \in Lanes, j \in Jobs : JStart(l, j) \/ Body(l, j) \/ BodyEnd(l, j) \/ JFin(l, j)
   \/ \E by \in Jobs : CancelStart(by) \/ CancelEnd(by)
   \/ CancelEnd("aux") \/ CancelSet \/ KillAll
-  \/ (ClientDone /\ (HasHang => cancelled) /\ DtorStart) \/ DtorShutdown \/ DtorEnd
+  \/ (ClientDone /\ (HasHang => cancelled) /\ (cfg.waitdone => AllJobsFinished) /\ DtorStart) \/ DtorShutdown \/ DtorEnd
   \/ \E h \in Procs, j \in Jobs : ExecProc(h, j) \/ ExecRet(h, j)
   \/ \E h \in Procs : PRefused(h) \/ PStartOk(h) \/ PStartFail(h) \/ PSpawnErr(h) \/ PFailFin(h) \/ POutput(h, 1) \/ PCtlErr(h)
                       \/ PReap(h) \/ PFinish(h) \/ PDone(h)
